@@ -40,20 +40,27 @@ func TestO8InterceptorOrder(t *testing.T) {
 	cases := 0
 	var fail map[string]string
 	// behaviours: 0 returns, 1 panics with a string, 2 Exit(10+i), 3 absent (nil func), 4 Exit(0), 5 panics with an error value,
-	// 6 runtime error (nil map write), 7 Exit(300). The basic set {0,1,2} is walked up to depth O8_D, all eight up to O8_DX.
-	type round struct{ d, nb int }
+	// 6 runtime error (nil map write), 7 Exit(300), 8 panic(nil) (the module says go 1.13: recover() yields nil, so the callback
+	// counts as having returned). The basic set {0,1,2} and the set {0,1,8} are walked up to depth O8_D, the first eight up to O8_DX.
+	type round struct {
+		d   int
+		set []int
+	}
 	var rounds []round
 	for d := 1; d <= depth; d++ {
-		rounds = append(rounds, round{d, 3})
+		rounds = append(rounds, round{d, []int{0, 1, 2}})
 	}
 	for d := 1; d <= depthX; d++ {
-		rounds = append(rounds, round{d, 8})
+		rounds = append(rounds, round{d, []int{0, 1, 2, 3, 4, 5, 6, 7}})
+	}
+	for d := 1; d <= depth; d++ {
+		rounds = append(rounds, round{d, []int{0, 1, 8}})
 	}
 	for _, rd := range rounds {
 		if fail != nil {
 			break
 		}
-		d, nb := rd.d, rd.nb
+		d, nb := rd.d, len(rd.set)
 		n := 2*d + 1 // Before_0..Before_{d-1}, Action, After_{d-1}..After_0
 		total := 1
 		for i := 0; i < n; i++ {
@@ -63,7 +70,7 @@ func TestO8InterceptorOrder(t *testing.T) {
 			beh := make([]int, n)
 			c := code
 			for i := range beh {
-				beh[i] = c % nb
+				beh[i] = rd.set[c%nb]
 				c /= nb
 			}
 			for _, policy := range []flag.ErrorHandling{flag.ContinueOnError, flag.ExitOnError, flag.PanicOnError} {
@@ -91,6 +98,8 @@ func TestO8InterceptorOrder(t *testing.T) {
 							m["x"] = 1
 						case 7:
 							Exit(300)
+						case 8:
+							panic(nil)
 						}
 					}
 				}
@@ -187,7 +196,7 @@ func TestO8InterceptorOrder(t *testing.T) {
 				got := fmt.Sprintf("log=%v exits=%v raised=%v err=%v", log, exits, raised, err)
 				exp := fmt.Sprintf("log=%v exits=%s raised=%s err=<nil>", want, wantExits, wantRaised)
 				if got != exp {
-					names := []string{"returns", "panics", "exits", "absent", "exits(0)", "panics(error)", "runtime-error", "exits(300)"}
+					names := []string{"returns", "panics", "exits", "absent", "exits(0)", "panics(error)", "runtime-error", "exits(300)", "panics(nil)"}
 					var desc []string
 					for i, b := range beh {
 						desc = append(desc, fmt.Sprintf("%d:%s", i, names[b]))
